@@ -70,6 +70,9 @@ def disk_length(rng, ftype, dtype, big_ok=True, max_granules=6):
     """Lengths whose *stored stream* lies within +-10 of a multiple of 256 or 2304, plus 0/1/random."""
     ov = disk_stream_overhead(ftype, dtype)
     k = rng.below(100)
+    if dtype == 0xFF and ftype != 2 and big_ok and rng.chance(0.03):
+        # an ASCII file has no 16-bit length word: it may be longer than 65,535 bytes, up to the whole disk (68 granules)
+        return rng.choice([65536, 70000, 100000, 2304 * 30, 2304 * 67 + 1, 156671, 156672, rng.randint(65536, 156672)])
     if k < 2 and big_ok:
         return 65535
     if k < 6:
